@@ -12,6 +12,7 @@
                 ok file | derrs [pos..] | errs [[pos; class]..] | panic | fuel
      FormatParsed L[S data; I fixmode; I kind]  (kind 0 Parse, 1 ParseLax, 2 ParseWork)
                 ok (S bytes of Format(f.Syntax)) | the error values above
+     AutoQuote  S s         L[I MustQuote(s); S AutoQuote(s)]
      ModulePath S data      S path
    File encoding: see [enc_filed] / [enc_work]; a *Line pointer is L[I stmt; I (line+1 or 0)]. *)
 From Verif.Base Require Import Bytes Wire.
@@ -120,6 +121,8 @@ Definition dispatch_directives (f : str) (a : val) : option val :=
               else enc_dresult (fun x => VS (format (fd_syntax x))) (parse_to_file (k =? 0) (fixer_of m) data)
           | _ => VBadCase
           end)
+  else if str_eqb f (B "AutoQuote") then
+    Some (match a with VS t => VL [VB (must_quote t); VS (auto_quote t)] | _ => VBadCase end)
   else if str_eqb f (B "ModulePath") then
     Some (match a with VS data => VS (module_path data) | _ => VBadCase end)
   else None.
